@@ -1,5 +1,7 @@
 package main
 
+import "strings"
+
 func init() {
 	register(&propSpec{
 		ID:    "C05",
@@ -25,7 +27,7 @@ func init() {
 func init() {
 	register(&propSpec{
 		ID:         "C02",
-		Rules:      []func(*Ctx){ruleR02a, ruleR02b, ruleR02c, ruleR02d, ruleR02e, ruleR02g, ruleR02h, ruleR02i},
+		Rules:      []func(*Ctx){ruleR02a, ruleR02b, ruleR02c, ruleR02d, ruleR02e, ruleR02g, ruleR02h, ruleR02i, ruleR02j, func(c *Ctx) { ruleR07j(c, "R02l", []string{"soyhtml"}, 15) }},
 		Explain:    "R02a: push/pop pairing of the renderer's scope in every soyhtml function (go/cfg dataflow over relative depth, raising paths exempt); R02b: every AST field the parser fills from a command body (derived from parse, not listed) is walked inside its own frame, or the *ast.ListNode case brackets its elements; R02c: scope-frame typestate (set only on renderer-allocated frames, new states only get entered scopes, capped data=\"all\" view); R02d: the loop helper functions look up exactly the key suffixes the loop sets. R02e/R02f: a called template is walked on a newly built state and every {param} kind binds its key on every non-raising path; R02g: a command-body field is only handed to the tree walker or compared with nil, never taken apart by hand; R02h: every state built for a template sets the fields the entry state sets.",
 		NotDecided: "the rendered text of each command; call-name resolution through namespace/alias; header-param folding.",
 		Assumes:    []string{"go/cfg control flow; no-return functions inferred from the source (panic closure)"},
@@ -65,7 +67,7 @@ func init() {
 func init() {
 	register(&propSpec{
 		ID:         "C03",
-		Rules:      []func(*Ctx){ruleR03a, ruleR03b, ruleR03c, ruleR03d, ruleR03e, ruleR03f, ruleR10f, ruleR02e},
+		Rules:      []func(*Ctx){ruleR03a, ruleR03b, ruleR03c, ruleR03d, ruleR03e, ruleR03f, ruleR03g, ruleR10f, ruleR02e},
 		Explain:    "R03a: evalPrint is evaluated (finite-domain, AST) for every autoescape mode x cancel-flag value: unless the mode is off or a directive cancels, every completing path writes through the escaper and none writes raw; R03b: every cancelling PrintDirectives entry is in the language's list, and the HTML-producing / re-encoding ones return only data that passed their escaper (SSA taint from the value parameter to every return); R03c: the escaper's table covers the five characters with references that decode back and contain none of them; R03d: parseAutoescape yields the off mode only for \"false\". R03e: the autoescape mode of a live state is assigned only by the template-level attribute case of the walker; R02e: a called template runs on its own state.",
 		NotDecided: "index arithmetic inside the escaper loop (which byte ranges are copied); user-registered directives; contextual (attribute/JS/URI-aware) escaping, which this implementation does not provide.",
 		Assumes:    []string{"text/template.HTMLEscapeString, net/url.QueryEscape, text/template.JSEscapeString and encoding/json.Marshal are correct encoders"},
@@ -85,7 +87,7 @@ func init() {
 func init() {
 	register(&propSpec{
 		ID:         "C19",
-		Rules:      []func(*Ctx){ruleR19a, ruleR19b, ruleR19c, ruleR19d, ruleR19e, ruleR19f},
+		Rules:      []func(*Ctx){ruleR19a, ruleR19b, ruleR19c, ruleR19d, ruleR19e, ruleR19f, ruleR06c},
 		Explain:    "R19a: every parser is created with the input's name; parse failures are raised only through the positioned constructor (bare panics are internal markers); message prefix and File/Line/Col come from the same expressions and line/column from one offset; R19b: unexpected(token) positions every raise at that token's own offset and expect passes the token it read; R19c: errFromNode looks up file, line and column with one template name and the state's current node, errRecover only produces such errors, and a callee's failure propagates to the caller's state; R19d: a nested parse is given its position base. R19e: value-returning helpers that walk an operand on the same state (eval, renderBlock) restore the current-node mark on every returning path; R19f: the scanner's error item is positioned at the current scan offset, unconditionally.",
 		NotDecided: "the arithmetic of lineNumber/columnNumber (that the numbers are right for a given offset).",
 		Assumes:    []string{"token offsets recorded by the scanner are offsets of the construct concerned"},
@@ -107,8 +109,10 @@ func init() {
 
 func init() {
 	register(&propSpec{
-		ID:         "C10",
-		Rules:      []func(*Ctx){ruleR10a, ruleR10b, ruleR10c, ruleR10d, ruleR10f, ruleR10g},
+		ID: "C10",
+		Rules: []func(*Ctx){ruleR10a, ruleR10b, ruleR10c, ruleR10d, ruleR10f, ruleR10g, func(c *Ctx) {
+			ruleR07iFor(c, func(k string) bool { return strings.Contains(k, "Msgs") || strings.HasPrefix(k, "soymsg") }, 2, 2)
+		}, func(c *Ctx) { ruleR07j(c, "R07j", []string{"parsepasses", "soymsg"}, 5) }},
 		Explain:    "R10a: no range over a map on the id / placeholder-name path is order-sensitive (K6); R10b: of ast.MsgNode the id computation reads only Body and Meaning, reads no source position, and reads only package variables that are never written after init (SSA field-read sets over the reachable functions); R10c: ids and placeholder names are assigned only in soymsg, which is called only from the compile pass and the extractor. R10d: the suffix-collision test consults the base-name table; R10e: all plural bodies are fingerprinted with braced placeholders.",
 		NotDecided: "numeric agreement of fingerprint/hash32 with the official algorithm; the exact placeholder names the official algorithm would choose.",
 		Assumes:    []string{"VTA call graph for reachability"},
@@ -127,8 +131,10 @@ func init() {
 
 func init() {
 	register(&propSpec{
-		ID:         "C07",
-		Rules:      []func(*Ctx){ruleR07a, ruleR07b, ruleR07c, ruleR07d, ruleR07e, ruleR07f, ruleR07g, func(c *Ctx) { ruleBlocks(c, "R07c-blocks", "soyhtml", 8) }},
+		ID: "C07",
+		Rules: []func(*Ctx){ruleR07a, func(c *Ctx) { ruleR07bFor(c, true, false) }, ruleR07c, ruleR07d, ruleR07e, ruleR07f, ruleR07g, ruleR07k, func(c *Ctx) {
+			ruleR07iFor(c, func(k string) bool { return strings.HasPrefix(k, "parsepasses.templateChecker") }, 1, 4)
+		}, func(c *Ctx) { ruleR07j(c, "R07j", []string{"parsepasses"}, 3, "parsepasses.templateChecker") }, func(c *Ctx) { ruleBlocks(c, "R07c-blocks", "soyhtml", 8) }},
 		Explain:    "R07a: on every success path Compile has parsed and registered every file and run CheckDataRefs, SetGlobals and ProcessMessages, and honours each error (go/cfg must-pass + SSA error discipline); R07b: the node kinds that bind a name agree between the compile-time checker, the Go renderer and the JavaScript generator, and data references are checked; R07c: every node-typed field of every AST node type is returned by its Children(), so no reference escapes the tree passes; the interpreter ends a {let} at least as early as the checker assumes (block frames); R07d: the one-declaration-mechanism test precedes recording a template. R07e: the checker brings a binder into scope exactly where the language does (a {let} after its own definition, a loop variable for the loop body only).",
 		NotDecided: "that acceptance is exact for every program: the checker's own algorithm (shadowing, data=\"all\" expansion, required params) is value-level and not decided.",
 		Assumes:    []string{"go/cfg control flow", "the tree passes visit exactly what Children() returns"},
@@ -138,7 +144,7 @@ func init() {
 func init() {
 	register(&propSpec{
 		ID:         "C01",
-		Rules:      []func(*Ctx){ruleR01a, ruleR01b, ruleR01c, ruleR01d, ruleR01e, ruleR01f, ruleR07c, ruleR20f},
+		Rules:      []func(*Ctx){ruleR01a, ruleR01b, ruleR01c, ruleR01d, ruleR01e, ruleR01f, ruleR07c, ruleR20f, func(c *Ctx) { ruleR07iFor(c, func(k string) bool { return strings.Contains(k, "Globals") }, 1, 0) }},
 		Explain:    "R01a: every token that can start an expression (evaluated over all token kinds) starts an implicit print; R01b: lexNegative evaluated for every token kind that can precede '-' agrees with the language partition (subtraction exactly after a complete operand); R01c: each operator's pipeline (scanner symbol, operator class, precedence entry, node constructor, Go and JS cases) is complete, the relative precedence order of all operator pairs equals the language table and binary operators are left-associative; R01d: every node type the parser builds has an evaluator case or a named parent; R01e: each operator case of the Go evaluator applies the language's operator to (Arg1, Arg2) in order, the ternary and ?: select as defined; R01f: built-in functions exist with the language's arities; R07c: Children() completeness (so globals are set on every GlobalNode). R20f: Int and Float are compared as float64 in both directions.",
 		NotDecided: "every value-level clause: integer/float arithmetic results, string/number formatting, truthiness and equality values, literal decoding, function results, 'undefined is an error'.",
 		Assumes:    []string{"the frozen language tables in the checker (operator levels, operand-ending tokens, function arities) transcribe the Soy language reference"},
@@ -148,7 +154,7 @@ func init() {
 func init() {
 	register(&propSpec{
 		ID:         "C04",
-		Rules:      []func(*Ctx){ruleR04a, ruleR04b, ruleR04c, ruleR04d, func(c *Ctx) { ruleBlockUse(c, "R04d-use", "soyjs") }, ruleR04f, ruleR04g, ruleR11a, ruleR11d, ruleR02h, ruleR07b},
+		Rules:      []func(*Ctx){ruleR04a, ruleR04b, ruleR04c, ruleR04d, func(c *Ctx) { ruleBlockUse(c, "R04d-use", "soyjs") }, ruleR04f, ruleR04g, ruleR03c, ruleR03g, ruleR04j, ruleR04k, ruleR04l, func(c *Ctx) { ruleR07j(c, "R04i", []string{"soyjs"}, 5) }, ruleR11a, ruleR11d, ruleR02h, func(c *Ctx) { ruleR07bFor(c, false, true) }, ruleR04m},
 		Explain:    "Sibling cross-check of the two backends: R04a node-kind case sets agree (named exceptions); R04b function tables (names, argument counts), loop functions and print-directive tables (names, CancelAutoescape) agree; R04d the generator's scope push/pop is paired and every command body gets its own frame; R04c every expression emitter (walk cases and function-table emitters) is linearised by evaluating its emit calls path by path, parsed as a JavaScript expression template in which child slots are atoms, and for each operand slot every type-compatible child emitter must bind at least as tightly as the slot requires (and must not start with '-' directly after a '-'); R04f each operator node emits the JavaScript operator the language maps it to, operands in order; R04g visitPrint (evaluated over mode x cancel flag) wraps the value in escapeHtml exactly when the Go renderer escapes; R11a message parts are handled by both backends; R07b binder kinds agree. R04d-use: command-body fields are only handed to the generator's walker; R11d/R11e/R02h: catalogue loading and translated-text handling agree between the backends.",
 		NotDecided: "anything inside soyutils.js; number formatting; mixed-type equality; statement-level structure of the generated file.",
 		Assumes:    []string{"the frozen operator mapping Soy -> JavaScript in the checker"},
@@ -175,7 +181,7 @@ func init() {
 	})
 	register(&propSpec{
 		ID:         "C20",
-		Rules:      []func(*Ctx){ruleR20a, ruleR20b, ruleR20c, ruleR20d, ruleR20f, ruleR20g},
+		Rules:      []func(*Ctx){ruleR20a, ruleR20b, ruleR20c, ruleR20d, ruleR20f, ruleR20g, ruleR20h},
 		Explain:    "R20a: no comparison against math.NaN(); R20b: the pairs of value kinds that Equals can accept form a symmetric relation that includes Int~Float; R20c: the reflect-kind switch of the conversion covers every kind the statement lists, unwraps pointers/interfaces, returns on nil before use, recognises time.Time before structs and nil slices before indexing; R20d: each Truthy is a single expression over the receiver and, evaluated on sample constants, follows the language table (null, false, 0, 0.0, NaN, \"\" falsy). R20f: the cross-kind arms of Int.Equals and Float.Equals compare both values as float64.",
 		NotDecided: "scalar fidelity of the conversion, idempotence, lowerCamel field names, equality of values (only the acceptance relation is decided), printing.",
 		Assumes:    []string{"the language's truthiness table in the checker"},
@@ -185,7 +191,7 @@ func init() {
 func init() {
 	register(&propSpec{
 		ID:         "C17",
-		Rules:      []func(*Ctx){ruleR17a, ruleR17b, ruleR17c, ruleR17d},
+		Rules:      []func(*Ctx){ruleR17a, ruleR17b, ruleR17c, ruleR17d, ruleR01b},
 		Explain:    "R17a: every operand slot of every operator printer (the node kinds the parser's operator constructors build, derived on each run) is printed through a wrapper whose parenthesising type list covers all operator kinds, so no operand can re-associate with its context; R17b: map-literal keys are printed through a function that escapes backslash and quote; R17c: no printing or Children() method depends on map iteration order; R17d/R17e: the unary minus is printed apart from its operand and integral floats keep a decimal point.",
 		NotDecided: "the formatting of numeric literals beyond the decimal point rule (exponents, precision); that separators inside the non-operator printers (function arguments, list items, directive arguments) cannot be confused, which holds by their bracket/comma structure but is not computed here.",
 		Assumes:    []string{"an expression in parentheses parses to the same tree as the expression"},
